@@ -515,7 +515,10 @@ def run(rec):
                 k0 = (t * 7 + rep * 3) % max(1, len(hash_ops))
                 plans[t] += hash_ops[k0:] + hash_ops[:k0]
         prepared = [[(pool[oi][1], pool[oi][3]()) for oi in plan] for plan in plans]       # argument objects are built single-threaded by the harness
+        import time
+        from .common import overlapping_pairs
         measured = [[] for _ in range(n_thr)]
+        spans = [[] for _ in range(n_thr)]
         gate = threading.Barrier(n_thr)
 
         def worker(t):
@@ -524,7 +527,9 @@ def run(rec):
             except threading.BrokenBarrierError:
                 pass
             for name, (fn, args) in prepared[t]:
+                t0_ = time.perf_counter()
                 measured[t].append((name,) + Purity.measure(fn, args))
+                spans[t].append((t0_, time.perf_counter()))
         old_si = sys.getswitchinterval()
         sys.setswitchinterval(2e-5)
         try:
@@ -541,6 +546,10 @@ def run(rec):
                 rec.case("history:concurrent", None, nontrivial=False, sample={"op": name, "history": hist, "seq": seq} if seq < 1 and t < 2 else None)
                 events.append(mon.judge_threaded(hist, seq, name, before, after, rdig))
         mon.registry_check("concurrent history", {"op": "concurrent history", "history": "shard%d/threads" % rec.shard})
+        ov = overlapping_pairs(spans)
+        rec.event("concurrent-history:overlapping-call-pairs(different threads)", ov)
+        if not ov:
+            rec.inconclusive.append("concurrent history: no two calls of different threads overlapped in time")
         rec.event("concurrent-history:threads", n_thr)
         rec.event("concurrent-history:calls", sum(len(m) for m in measured))
     rec.case("history:concurrent", None, nontrivial=False)
